@@ -466,14 +466,94 @@ def deep_mutate(obj, depth=0, seen=None):
     return n
 
 
+def _bare(t):
+    """the class constructor alone, required arguments only (each a fresh object), nothing assigned afterwards: whatever
+    containers the instance holds now were put there by the constructor itself"""
+    one = lambda: np.ones(3, dtype="<f4")  # noqa
+    eye = lambda: np.eye(3, dtype="<f4")  # noqa
+    if t == "optical":
+        from basictdf.tdfOpticalSystem import OpticalSetupBlock
+        return OpticalSetupBlock()
+    if t == "events":
+        from basictdf.tdfEvents import TemporalEventsData
+        return TemporalEventsData()
+    if t == "event-item":
+        from basictdf.tdfEvents import Event
+        return Event("e")
+    if t == "emg":
+        from basictdf.tdfEMG import EMG
+        return EMG(1000, N)
+    if t == "data3D":
+        from basictdf.tdfData3D import Data3D
+        return Data3D(100, N, one(), eye(), one())
+    if t == "force3D":
+        from basictdf.tdfForce3D import ForceTorque3D
+        return ForceTorque3D(100, N, one(), eye(), one())
+    if t == "platCal":
+        from basictdf.tdfForcePlatformsCalibration import ForcePlatformsCalibrationDataBlock
+        return ForcePlatformsCalibrationDataBlock()
+    if t == "platData":
+        from basictdf.tdfForcePlatformsData import ForcePlatformsDataBlock
+        return ForcePlatformsDataBlock(0.0, 100, N)
+    if t == "data2D":
+        from basictdf.tdfData2D import Data2D, Data2DFlags
+        return Data2D(4, N, 100, 0.0, Data2DFlags(0))
+    from basictdf.tdfCalibrationData import CalibrationDataBlock, DistorsionModel
+    return CalibrationDataBlock(DistorsionModel(0), one(), eye(), one(), np.zeros(0, dtype="<i2"), [])
+
+
+def deep_snapshot(obj, depth=0):
+    """structural picture of everything reachable from an instance (arrays by dtype/shape/bytes); timestamps left out"""
+    import enum
+
+    if depth > 6:
+        return "..."
+    if isinstance(obj, np.ndarray):
+        if obj.dtype == object:
+            return ["objarr", list(obj.shape), [deep_snapshot(x, depth + 1) for x in obj.flat]]
+        return ["arr", str(obj.dtype), list(obj.shape), obj.tobytes().hex()]
+    if isinstance(obj, (list, tuple)):
+        return [type(obj).__name__] + [deep_snapshot(x, depth + 1) for x in obj]
+    if isinstance(obj, dict):
+        return {repr(k): deep_snapshot(v, depth + 1) for k, v in obj.items()}
+    if isinstance(obj, enum.Enum):
+        return repr(obj)
+    if hasattr(obj, "__dict__") and type(obj).__module__.startswith("basictdf"):
+        return {k: deep_snapshot(v, depth + 1) for k, v in sorted(vars(obj).items()) if not k.endswith("_date")}
+    return repr(obj)
+
+
 def deep_strategy(tier):
     import hypothesis.strategies as st_
 
-    return st_.fixed_dictionaries({"t": st_.sampled_from(ALL_TYPES), "origin": st_.sampled_from(["constructed", "constructed-empty", "decoded"]), "seed": st_.integers(1, 50)})
+    made = st_.fixed_dictionaries({"t": st_.sampled_from(ALL_TYPES), "origin": st_.sampled_from(["constructed", "constructed-empty", "decoded"]), "seed": st_.integers(1, 50)})
+    bare = st_.fixed_dictionaries({"t": st_.sampled_from(ALL_TYPES + ["event-item"]), "origin": st_.just("bare-constructor"), "seed": st_.integers(1, 50),
+                                   "when": st_.sampled_from(["sibling-before", "sibling-after", "both"])})
+    return st_.one_of(made, made, bare)
+
+
+def run_deep_bare(ctx, case):
+    t = case["t"]
+    pristine = deep_snapshot(_bare(t))
+    a = _bare(t)
+    b = _bare(t) if case["when"] in ("sibling-before", "both") else None
+    before = deep_snapshot(b) if b is not None else None
+    edits = deep_mutate(a)
+    if b is not None and deep_snapshot(b) != before:
+        ctx.fail(f"deep/{t}/bare-sibling-changed", f"{t}: two instances made by the constructor alone; editing in place every container reachable from one changed "
+                                                   f"what the other holds", {"before": before, "after": deep_snapshot(b)})
+    if case["when"] in ("sibling-after", "both"):
+        c = deep_snapshot(_bare(t))
+        if c != pristine:
+            ctx.fail(f"deep/{t}/bare-new-not-pristine", f"{t}: an instance made by the constructor alone after another instance was edited in place does not start "
+                                                        f"like a pristine one", {"pristine": pristine, "now": c})
+    ctx.case(case, edits > 0, labels=[f"deep:{t}", "bare-constructor", case["when"]])
 
 
 def run_deep(ctx, case):
     t, origin = case["t"], case["origin"]
+    if origin == "bare-constructor":
+        return run_deep_bare(ctx, case)
     fmt = {"platCal": 2, "data2D": 2}.get(t, 1)
 
     def make():
@@ -485,8 +565,11 @@ def run_deep(ctx, case):
     pristine_empty = specs.lib_write(_minimal_block(t))
     a, b = make(), make()
     before = specs.lib_write(b)
+    shot = deep_snapshot(b)
     edits = deep_mutate(a)
     after = specs.lib_write(b)
+    if deep_snapshot(b) != shot:
+        ctx.fail(f"deep/{t}/sibling-changed", f"{t} ({origin}): editing every container reachable from one instance in place changed an attribute of a separately made instance")
     if after != before:
         ctx.fail(f"deep/{t}/sibling-changed", f"{t} ({origin}): editing every container reachable from one instance in place changed the encoding of a "
                                               f"separately made instance ({len(before)} -> {len(after)} bytes)")
@@ -499,7 +582,8 @@ def run_deep(ctx, case):
 
 SUBS = [make(t) for t in TYPES]
 SUBS.append(Sub("deep-mutation", run_deep, strategy=deep_strategy, budget=(300, 6000), shards=(2, 8),
-                rule="all nine block classes: two instances made the same way (constructed / constructed empty / decoded from the same bytes); every list and writable "
-                     "array reachable from one is edited in place; the sibling and a block constructed afterwards must be unchanged"))
+                rule="all nine block classes: two instances made the same way (constructed / constructed empty / decoded from the same bytes / by the bare constructor with "
+                     "nothing assigned afterwards); every list and writable array reachable from one is edited in place; the sibling and a block constructed afterwards "
+                     "must be unchanged (encoding, and for bare constructors a structural snapshot of every reachable attribute)"))
 SUBS.append(Sub("via-file", run_file, strategy=file_strategy, budget=(150, 4000), shards=(2, 8),
                 rule="1..3 blocks written to a file; the same block read twice through get_block / [] / getters / blocks (same or separate contexts); one copy edited, the other and the file must not change"))
